@@ -70,6 +70,7 @@ package rest
 // assumed (go-libp2p-core/peer): a peer ID that decodes without error is not the empty ID
 //@ extern peer.Decode(s)
 //@   ensures err == nil ==> res != ""
+//@   ensures res == libfn("peer.Decode", 0, s)
 //@ func (api *API) parsePidOrError
 //@   property C11
 //@   ensures [empty-iff-answered] (res == "") <==> (httpResponses == old(httpResponses) + 1)
@@ -300,4 +301,58 @@ package rest
 //@   requires cfg != nil && jcfg != nil
 //@   ensures [tls-files-recorded-or-refused] err == nil && (jcfg.SSLCertFile != "" || jcfg.SSLKeyFile != "") ==> cfg.pathSSLCertFile == jcfg.SSLCertFile && cfg.pathSSLKeyFile == jcfg.SSLKeyFile && cfg.TLS != nil
 //@   ensures [no-tls-setting-no-tls] jcfg.SSLCertFile == "" && jcfg.SSLKeyFile == "" ==> err == nil && cfg.TLS == old(cfg.TLS)
+//@   ensures [other-settings-untouched] cfg.HTTPListenAddr == old(cfg.HTTPListenAddr) && cfg.ReadTimeout == old(cfg.ReadTimeout) && cfg.ReadHeaderTimeout == old(cfg.ReadHeaderTimeout) && cfg.WriteTimeout == old(cfg.WriteTimeout) && cfg.IdleTimeout == old(cfg.IdleTimeout) && cfg.CORSMaxAge == old(cfg.CORSMaxAge) && cfg.MaxHeaderBytes == old(cfg.MaxHeaderBytes) && cfg.ID == old(cfg.ID) && cfg.Libp2pListenAddr == old(cfg.Libp2pListenAddr)
 //@   modifies heap(Config)
+
+// ---- C15: the loaded form of the REST API section: every setting the saved form carries is read back ----
+//@ extern multiaddr.NewMultiaddr(s)
+//@   ensures res == libfn("multiaddr.NewMultiaddr", 0, s)
+//@ func (cfg *Config) loadHTTPOptions
+//@   property C15
+//@   requires cfg != nil && jcfg != nil
+//@   ensures [http-listen-multiaddress] err == nil && len(old(jcfg.HTTPListenMultiaddress)) > 0 ==> len(cfg.HTTPListenAddr) == len(old(jcfg.HTTPListenMultiaddress)) && forall j int :: 0 <= j && j < len(cfg.HTTPListenAddr) ==> cfg.HTTPListenAddr[j] == libfn("multiaddr.NewMultiaddr", 0, old(jcfg.HTTPListenMultiaddress)[j])
+//@   ensures [max-header-bytes] err == nil ==> cfg.MaxHeaderBytes == ite(old(jcfg.MaxHeaderBytes) == 0, DefaultMaxHeaderBytes, old(jcfg.MaxHeaderBytes))
+//@   ensures [cors] err == nil ==> cfg.CORSAllowedOrigins == old(jcfg.CORSAllowedOrigins) && cfg.CORSAllowedMethods == old(jcfg.CORSAllowedMethods) && cfg.CORSAllowedHeaders == old(jcfg.CORSAllowedHeaders) && cfg.CORSExposedHeaders == old(jcfg.CORSExposedHeaders) && cfg.CORSAllowCredentials == old(jcfg.CORSAllowCredentials)
+//@   ensures [read-timeout] err == nil ==> cfg.ReadTimeout == ite(old(jcfg.ReadTimeout) != "", parseDur(old(jcfg.ReadTimeout)), old(cfg.ReadTimeout))
+//@   ensures [read-header-timeout] err == nil ==> cfg.ReadHeaderTimeout == ite(old(jcfg.ReadHeaderTimeout) != "", parseDur(old(jcfg.ReadHeaderTimeout)), old(cfg.ReadHeaderTimeout))
+//@   ensures [write-timeout] err == nil ==> cfg.WriteTimeout == ite(old(jcfg.WriteTimeout) != "", parseDur(old(jcfg.WriteTimeout)), old(cfg.WriteTimeout))
+//@   ensures [idle-timeout] err == nil ==> cfg.IdleTimeout == ite(old(jcfg.IdleTimeout) != "", parseDur(old(jcfg.IdleTimeout)), old(cfg.IdleTimeout))
+//@   ensures [cors-max-age] err == nil ==> cfg.CORSMaxAge == parseDur(ite(old(jcfg.CORSMaxAge) != "", old(jcfg.CORSMaxAge), "0s"))
+//@   loop 1 (range addresses)
+//@     invariant len(cfg.HTTPListenAddr) == idx1 && forall j int :: 0 <= j && j < idx1 ==> cfg.HTTPListenAddr[j] == libfn("multiaddr.NewMultiaddr", 0, addresses[j])
+//@     invariant cfg.ReadTimeout == old(cfg.ReadTimeout) && cfg.ReadHeaderTimeout == old(cfg.ReadHeaderTimeout) && cfg.WriteTimeout == old(cfg.WriteTimeout) && cfg.IdleTimeout == old(cfg.IdleTimeout)
+//@     invariant forall q *jsonConfig :: *q == old(*q)
+//@   modifies *
+
+//@ func (cfg *Config) loadLibp2pOptions
+//@   property C15
+//@   requires cfg != nil && jcfg != nil
+//@   ensures [libp2p-listen-multiaddress] err == nil && len(jcfg.Libp2pListenMultiaddress) > 0 ==> len(cfg.Libp2pListenAddr) == len(jcfg.Libp2pListenMultiaddress) && forall j int :: 0 <= j && j < len(cfg.Libp2pListenAddr) ==> cfg.Libp2pListenAddr[j] == libfn("multiaddr.NewMultiaddr", 0, jcfg.Libp2pListenMultiaddress[j])
+//@   ensures [id] err == nil && jcfg.ID != "" ==> cfg.ID == libfn("peer.Decode", 0, jcfg.ID)
+//@   ensures [unset-id-keeps-the-default] err == nil && jcfg.ID == "" ==> cfg.ID == old(cfg.ID)
+//@   loop 1 (range addresses)
+//@     invariant len(cfg.Libp2pListenAddr) == idx1 && forall j int :: 0 <= j && j < idx1 ==> cfg.Libp2pListenAddr[j] == libfn("multiaddr.NewMultiaddr", 0, addresses[j])
+//@     invariant cfg.ID == old(cfg.ID)
+//@     invariant forall q *jsonConfig :: *q == old(*q)
+//@   modifies heap(Config)
+
+// ---- C15: loading a section = the defaults, then the section applied on top of them (a setting the section does
+// not carry gets its default, not whatever the object held before) ----
+//@ ghost var defaultsN int
+//@ func (cfg *Config) Default
+//@   opts trusted
+//@   counts defaultsN when true
+//@   modifies heap(Config)
+//@ func (cfg *Config) Validate
+//@   opts trusted
+//@   modifies nothing
+//@ func (cfg *Config) applyJSONConfig
+//@   property C15
+//@   requires cfg != nil && jcfg != nil
+//@   ensures [other-options] err == nil ==> cfg.BasicAuthCredentials == jcfg.BasicAuthCredentials && cfg.HTTPLogFile == jcfg.HTTPLogFile && cfg.Headers == jcfg.Headers
+//@   modifies *
+//@ func (cfg *Config) LoadJSON
+//@   property C15
+//@   requires cfg != nil
+//@   at_call Config.applyJSONConfig assert [defaults-first] defaultsN == old(defaultsN) + 1
+//@   modifies *
